@@ -9,6 +9,13 @@ open SurfProofs.Lemmas.Vt SurfProofs.Lemmas.Sgr SurfProofs.ReMatch SurfProofs.Pr
 theorem hexDigit_range (d : Nat) (h : d < 16) : (48 ≤ hexDigit d ∧ hexDigit d ≤ 57) ∨ (97 ≤ hexDigit d ∧ hexDigit d ≤ 102) := by
   unfold hexDigit; split <;> omega
 
+/-- a hex digit in either case -/
+def IsHexC (b : Nat) : Prop := (48 ≤ b ∧ b ≤ 57) ∨ (65 ≤ b ∧ b ≤ 70) ∨ (97 ≤ b ∧ b ≤ 102)
+
+theorem hexDigitC_range (upper : Bool) (d : Nat) (h : d < 16) : IsHexC (hexDigitC upper d) := by
+  unfold IsHexC hexDigitC hexDigitUpper hexDigit
+  cases upper <;> simp <;> split <;> omega
+
 theorem hexVal_hexDigit (d : Nat) (h : d < 16) : hexVal? (hexDigit d) = some d := by
   unfold hexDigit hexVal?
   by_cases h10 : d < 10
@@ -21,20 +28,36 @@ theorem hexVal_hexDigit (d : Nat) (h : d < 16) : hexVal? (hexDigit d) = some d :
     simp [h10, a, b]
     omega
 
-theorem hexFixed_length (n v : Nat) : (hexFixed n v).length = n := by
+theorem hexVal_hexDigitUpper (d : Nat) (h : d < 16) : hexVal? (hexDigitUpper d) = some d := by
+  unfold hexDigitUpper hexVal?
+  by_cases h10 : d < 10
+  · have a : ¬ (65 ≤ 48 + d ∧ 48 + d ≤ 70) := by omega
+    have b : ¬ (97 ≤ 48 + d ∧ 48 + d ≤ 102) := by omega
+    have c : 48 ≤ 48 + d ∧ 48 + d ≤ 57 := by omega
+    simp [h10, a, b, c]
+  · have a : 65 ≤ 55 + d ∧ 55 + d ≤ 70 := by omega
+    simp [h10, a]
+    omega
+
+theorem hexVal_hexDigitC (upper : Bool) (d : Nat) (h : d < 16) : hexVal? (hexDigitC upper d) = some d := by
+  cases upper
+  · simpa [hexDigitC] using hexVal_hexDigit d h
+  · simpa [hexDigitC] using hexVal_hexDigitUpper d h
+
+theorem hexFixed_length (upper : Bool) (n v : Nat) : (hexFixedC upper n v).length = n := by
   induction n generalizing v with
   | zero => rfl
-  | succ n ih => simp [hexFixed, ih]
+  | succ n ih => simp [hexFixedC, ih]
 
-theorem hexFixed_bytes (n v : Nat) : ∀ b ∈ hexFixed n v, (48 ≤ b ∧ b ≤ 57) ∨ (97 ≤ b ∧ b ≤ 102) := by
+theorem hexFixed_bytes (upper : Bool) (n v : Nat) : ∀ b ∈ hexFixedC upper n v, IsHexC b := by
   induction n generalizing v with
-  | zero => intro b hb; simp [hexFixed] at hb
+  | zero => intro b hb; simp [hexFixedC] at hb
   | succ n ih =>
     intro b hb
-    simp only [hexFixed, List.mem_append, List.mem_singleton] at hb
+    simp only [hexFixedC, List.mem_append, List.mem_singleton] at hb
     rcases hb with hb | rfl
     · exact ih _ b hb
-    · exact hexDigit_range _ (by omega)
+    · exact hexDigitC_range upper _ (by omega)
 
 theorem hexValue_snoc (l : List Nat) (x : Nat) :
     hexValue (l ++ [x]) = match hexValue l, hexVal? x with
@@ -44,38 +67,39 @@ theorem hexValue_snoc (l : List Nat) (x : Nat) :
   rw [List.foldl_append]
   rfl
 
-theorem hexValue_hexFixed (n v : Nat) (h : v < 16 ^ n) : hexValue (hexFixed n v) = some v := by
+theorem hexValue_hexFixed (upper : Bool) (n v : Nat) (h : v < 16 ^ n) : hexValue (hexFixedC upper n v) = some v := by
   induction n generalizing v with
   | zero => simp at h; subst h; rfl
   | succ n ih =>
     have h1 : v / 16 < 16 ^ n := by
       rw [Nat.pow_succ] at h
       exact Nat.div_lt_of_lt_mul (by rw [Nat.mul_comm]; exact h)
-    rw [hexFixed, hexValue_snoc, ih _ h1, hexVal_hexDigit _ (by omega)]
+    rw [hexFixedC, hexValue_snoc, ih _ h1, hexVal_hexDigitC _ _ (by omega)]
     simp
     omega
 
 /-! ## one channel -/
 
-theorem parseComponent_fixed (d v : Nat) (h1 : 1 ≤ d) (h4 : d ≤ 4) (hv : v < 16 ^ d) :
-    parseComponent (hexFixed d v) = some (Channel.byte ⟨d, v⟩) := by
-  have hlen := hexFixed_length d v
-  have hhead : (hexFixed d v).head? ≠ some 43 := by
+theorem parseComponent_fixed (upper : Bool) (d v : Nat) (h1 : 1 ≤ d) (h4 : d ≤ 4) (hv : v < 16 ^ d) :
+    parseComponent (hexFixedC upper d v) = some (Channel.byte ⟨d, v⟩) := by
+  have hlen := hexFixed_length upper d v
+  have hhead : (hexFixedC upper d v).head? ≠ some 43 := by
     intro e
-    have hm : 43 ∈ hexFixed d v := by
-      cases hl : hexFixed d v with
+    have hm : 43 ∈ hexFixedC upper d v := by
+      cases hl : hexFixedC upper d v with
       | nil => rw [hl] at e; simp at e
       | cons x xs => rw [hl] at e; simp at e; subst e; simp
-    have := hexFixed_bytes _ _ 43 hm
+    have := hexFixed_bytes _ _ _ 43 hm
+    unfold IsHexC at this
     omega
-  have hne : (hexFixed d v).isEmpty = false := by
-    cases hl : hexFixed d v with
+  have hne : (hexFixedC upper d v).isEmpty = false := by
+    cases hl : hexFixedC upper d v with
     | nil => rw [hl] at hlen; simp at hlen; omega
     | cons x xs => rfl
   unfold parseComponent
-  have hc : ¬ ((hexFixed d v).length < 1 ∨ 4 < (hexFixed d v).length) := by
+  have hc : ¬ ((hexFixedC upper d v).length < 1 ∨ 4 < (hexFixedC upper d v).length) := by
     rw [hlen]; omega
-  simp only [hc, if_false, beq_iff_eq, hhead, hne, hexValue_hexFixed _ _ hv, Bool.false_eq_true, hlen]
+  simp only [hc, if_false, beq_iff_eq, hhead, hne, hexValue_hexFixed _ _ _ hv, Bool.false_eq_true, hlen]
   have hd : d = 1 ∨ d = 2 ∨ d = 3 ∨ d = 4 := by omega
   rcases hd with rfl | rfl | rfl | rfl
   · simp only [Channel.byte]
@@ -99,10 +123,10 @@ theorem parseComponent_fixed (d v : Nat) (h1 : 1 ≤ d) (h4 : d ≤ 4) (hv : v <
     · omega
     · simp only [Option.some.injEq]; omega
 
-theorem parseComponent_channel (c : Channel) (h : c.Valid) :
-    parseComponent (hexFixed c.digits c.value) = some c.byte := by
+theorem parseComponent_channel (upper : Bool) (c : Channel) (h : c.Valid) :
+    parseComponent (hexFixedC upper c.digits c.value) = some c.byte := by
   obtain ⟨d, v⟩ := c
-  exact parseComponent_fixed d v h.1 h.2.1 h.2.2
+  exact parseComponent_fixed upper d v h.1 h.2.1 h.2.2
 
 /-! ## the last `/` -/
 
@@ -131,87 +155,89 @@ theorem validUtf8_ascii (l : List Nat) (h : ∀ b ∈ l, b < 128) : validUtf8 l 
 
 /-! ## colour specifications -/
 
-theorem hexPair_hex2 (r : Nat) (h : r < 256) :
-    hexPair? (hexDigit (r / 16)) (hexDigit (r % 16)) = some r := by
-  unfold hexPair?
-  rw [hexVal_hexDigit _ (by omega), hexVal_hexDigit _ (by omega)]
-  simp
-  omega
+theorem hexPair_fixed2 (upper : Bool) (r : Nat) (h : r < 256) :
+    hexFixedC upper 2 r = [hexDigitC upper (r / 16), hexDigitC upper (r % 16)] ∧
+      hexPair? (hexDigitC upper (r / 16)) (hexDigitC upper (r % 16)) = some r := by
+  constructor
+  · have : r / 16 % 16 = r / 16 := by omega
+    simp [hexFixedC, this]
+  · unfold hexPair?
+    rw [hexVal_hexDigitC _ _ (by omega), hexVal_hexDigitC _ _ (by omega)]
+    simp
+    omega
 
-theorem hexDigit_ne47 (d : Nat) (h : d < 16) : hexDigit d ≠ 47 := by
-  have := hexDigit_range d h; omega
+theorem isHexC_ne (b x : Nat) (h : IsHexC b) (hx : x < 48 ∨ (57 < x ∧ x < 65) ∨ (70 < x ∧ x < 97) ∨ 102 < x) : b ≠ x := by
+  unfold IsHexC at h; omega
 
-theorem parseColor_hash (r g b : Nat) (h : (ColorSpec.hash r g b).Valid) :
-    SurfModel.Payload.parseColor (ColorSpec.hash r g b).print = .ok (some (ColorSpec.hash r g b).rgba) := by
+theorem parseColor_hash (r g b : Nat) (upper : Bool) (h : (ColorSpec.hash r g b upper).Valid) :
+    SurfModel.Payload.parseColor (ColorSpec.hash r g b upper).print = .ok (some (ColorSpec.hash r g b upper).rgba) := by
   obtain ⟨hr, hg, hb⟩ := h
-  have hp : (ColorSpec.hash r g b).print =
-      [35, hexDigit (r / 16), hexDigit (r % 16), hexDigit (g / 16), hexDigit (g % 16), hexDigit (b / 16),
-        hexDigit (b % 16)] := by simp [ColorSpec.print, hex2]
-  have hno : 47 ∉ (ColorSpec.hash r g b).print := by
+  have hp : (ColorSpec.hash r g b upper).print =
+      [35, hexDigitC upper (r / 16), hexDigitC upper (r % 16), hexDigitC upper (g / 16), hexDigitC upper (g % 16),
+        hexDigitC upper (b / 16), hexDigitC upper (b % 16)] := by
+    simp [ColorSpec.print, (hexPair_fixed2 upper r hr).1, (hexPair_fixed2 upper g hg).1, (hexPair_fixed2 upper b hb).1]
+  have hno : 47 ∉ (ColorSpec.hash r g b upper).print := by
     rw [hp]
     simp only [List.mem_cons, List.not_mem_nil, or_false, not_or]
-    refine ⟨by omega, ?_, ?_, ?_, ?_, ?_, ?_⟩ <;> exact fun e => hexDigit_ne47 _ (by omega) e.symm
+    refine ⟨by omega, ?_, ?_, ?_, ?_, ?_, ?_⟩ <;>
+      exact fun e => isHexC_ne _ 47 (hexDigitC_range upper _ (by omega)) (by omega) e.symm
   unfold SurfModel.Payload.parseColor rasterParse
   rw [rfindSlash_none _ hno]
   rw [hp]
-  simp [hexPair_hex2 r hr, hexPair_hex2 g hg, hexPair_hex2 b hb, ColorSpec.rgba]
+  simp [(hexPair_fixed2 upper r hr).2, (hexPair_fixed2 upper g hg).2, (hexPair_fixed2 upper b hb).2, ColorSpec.rgba]
 
-theorem hexFixed_no (sep : Nat) (hs : sep < 48 ∨ (57 < sep ∧ sep < 97) ∨ 102 < sep) (n v : Nat) :
-    sep ∉ hexFixed n v := by
-  intro hm; have := hexFixed_bytes n v sep hm; omega
+theorem hexFixed_no (sep : Nat) (hs : sep < 48 ∨ (57 < sep ∧ sep < 65) ∨ (70 < sep ∧ sep < 97) ∨ 102 < sep)
+    (upper : Bool) (n v : Nat) : sep ∉ hexFixedC upper n v := by
+  intro hm; exact isHexC_ne _ sep (hexFixed_bytes upper n v sep hm) hs rfl
 
-theorem parseColor_rgb (r g b : Channel) (h : (ColorSpec.rgb r g b).Valid) :
-    SurfModel.Payload.parseColor (ColorSpec.rgb r g b).print = .ok (some (ColorSpec.rgb r g b).rgba) := by
+theorem parseColor_rgb (r g b : Channel) (upper : Bool) (h : (ColorSpec.rgb r g b upper).Valid) :
+    SurfModel.Payload.parseColor (ColorSpec.rgb r g b upper).print = .ok (some (ColorSpec.rgb r g b upper).rgba) := by
   obtain ⟨hr, hg, hb⟩ := h
-  let hr' := hexFixed r.digits r.value
-  let hg' := hexFixed g.digits g.value
-  let hb' := hexFixed b.digits b.value
-  have h47 : ∀ n v, 47 ∉ hexFixed n v := hexFixed_no 47 (by omega)
-  have hp : (ColorSpec.rgb r g b).print = ([114, 103, 98, 58] ++ (hr' ++ 47 :: hg')) ++ 47 :: hb' := by
+  let hr' := hexFixedC upper r.digits r.value
+  let hg' := hexFixedC upper g.digits g.value
+  let hb' := hexFixedC upper b.digits b.value
+  have h47 : ∀ n v, 47 ∉ hexFixedC upper n v := hexFixed_no 47 (by omega) upper
+  have hp : (ColorSpec.rgb r g b upper).print = ([114, 103, 98, 58] ++ (hr' ++ 47 :: hg')) ++ 47 :: hb' := by
     simp [ColorSpec.print, hr', hg', hb']
-  have hraster : rasterParse (ColorSpec.rgb r g b).print = .err := by
+  have hraster : rasterParse (ColorSpec.rgb r g b upper).print = .err := by
     unfold rasterParse
     rw [hp, rfindSlash_append _ _ (h47 _ _)]
     simp [isNameByte]
-  have hstrip : stripPrefixN [114, 103, 98, 58] (ColorSpec.rgb r g b).print = some (hr' ++ 47 :: (hg' ++ 47 :: hb')) := by
+  have hstrip : stripPrefixN [114, 103, 98, 58] (ColorSpec.rgb r g b upper).print = some (hr' ++ 47 :: (hg' ++ 47 :: hb')) := by
     rw [hp]
     simp [stripPrefixN]
   have hsplit : splitBy 47 (hr' ++ 47 :: (hg' ++ 47 :: hb')) = [hr', hg', hb'] := by
     rw [splitBy_append_sep 47 _ _ (h47 _ _), splitBy_append_sep 47 _ _ (h47 _ _), splitBy_no_sep 47 _ (h47 _ _)]
   unfold SurfModel.Payload.parseColor
   rw [hraster]
-  simp only [hstrip, hsplit, hr', hg', hb', parseComponent_channel r hr, parseComponent_channel g hg,
-    parseComponent_channel b hb, ColorSpec.rgba]
+  simp only [hstrip, hsplit, hr', hg', hb', parseComponent_channel upper r hr, parseComponent_channel upper g hg,
+    parseComponent_channel upper b hb, ColorSpec.rgba]
 
 theorem parseColor_spec (spec : ColorSpec) (h : spec.Valid) : SurfModel.Payload.parseColor spec.print = .ok (some spec.rgba) := by
   cases spec with
-  | hash r g b => exact parseColor_hash r g b h
-  | rgb r g b => exact parseColor_rgb r g b h
+  | hash r g b upper => exact parseColor_hash r g b upper h
+  | rgb r g b upper => exact parseColor_rgb r g b upper h
 
 theorem spec_bytes (spec : ColorSpec) (h : spec.Valid) :
     ∀ x ∈ spec.print, x < 128 ∧ x ≠ 59 ∧ x ≠ 27 ∧ x ≠ 7 := by
   intro x hx
+  have hex : ∀ y, IsHexC y → y < 128 ∧ y ≠ 59 ∧ y ≠ 27 ∧ y ≠ 7 := by
+    intro y hy; unfold IsHexC at hy; omega
   cases spec with
-  | hash r g b =>
-    simp [ColorSpec.print, hex2] at hx
-    obtain ⟨hr, hg, hb⟩ := h
-    rcases hx with rfl | rfl | rfl | rfl | rfl | rfl | rfl
+  | hash r g b upper =>
+    simp only [ColorSpec.print, List.mem_cons, List.mem_append] at hx
+    rcases hx with rfl | (hx | hx) | hx
     · omega
-    · have := hexDigit_range (r / 16) (by omega); omega
-    · have := hexDigit_range (r % 16) (by omega); omega
-    · have := hexDigit_range (g / 16) (by omega); omega
-    · have := hexDigit_range (g % 16) (by omega); omega
-    · have := hexDigit_range (b / 16) (by omega); omega
-    · have := hexDigit_range (b % 16) (by omega); omega
-  | rgb r g b =>
+    all_goals exact hex x (hexFixed_bytes _ _ _ x hx)
+  | rgb r g b upper =>
     simp only [ColorSpec.print, List.mem_cons, List.mem_append, List.not_mem_nil, or_false] at hx
     rcases hx with ((((hx | hx) | hx) | hx) | hx) | hx
     · rcases hx with rfl | rfl | rfl | rfl <;> omega
-    · have := hexFixed_bytes _ _ x hx; omega
+    · exact hex x (hexFixed_bytes _ _ _ x hx)
     · omega
-    · have := hexFixed_bytes _ _ x hx; omega
+    · exact hex x (hexFixed_bytes _ _ _ x hx)
     · omega
-    · have := hexFixed_bytes _ _ x hx; omega
+    · exact hex x (hexFixed_bytes _ _ _ x hx)
 
 theorem spec_ne_nil (spec : ColorSpec) : spec.print ≠ [] := by
   cases spec <;> simp [ColorSpec.print]
